@@ -551,6 +551,11 @@ func (c *c09) RunDesc(desc json.RawMessage) engine.Result {
 		}
 		if rec.Code == 0 {
 			accepted++
+			// an accepted envelope consumed its sender's nonce: keep the wallet-side counter in step so that
+			// the following hostile variants are not all rejected for a stale nonce
+			if cs.Chan == "deliver" && x.Build != nil && (cs.Gen == "hostile" || cs.Gen == "hostile2") {
+				ch.Nonces[c09Bases()[cs.Tmpl].From]++
+			}
 		} else {
 			rejected++
 		}
